@@ -9,10 +9,14 @@ GENS = []
 TARGETS = ['BC.Props.C19']
 PROP_FILES = ['BC/Props/C19.lean']
 # source ties: function bodies regenerated from the Python source by translate/t_funcs.py, proved equal to the model functions
-SRC = {'module': 'BC.Props.C19Src', 'file': 'BC/Props/C19Src.lean',
-       'theorems': ['C19_src_adjustment_SFP', 'C19_src_adjustment_FFP', 'C19_src_adjustment_LWIR']}
+SRC = [{'module': 'BC.Props.C19Src', 'file': 'BC/Props/C19Src.lean',
+       'theorems': ['C19_src_adjustment_SFP', 'C19_src_adjustment_FFP', 'C19_src_adjustment_LWIR']},
+       # the click law under rounded arithmetic (interpretation E)
+       {'module': 'BC.Props.C19Rounded', 'file': 'BC/Props/C19Rounded.lean', 'lemma_files': ['BC/Rounded.lean', 'BC/Props/C06Rounded.lean'], 'funcs': False,
+        'kind': 'theorem', 'theorems': ['C19_clicks_rounded']}]
 THEOREMS = ['C19_clicks', 'C19_ffp_independent', 'C19_linear', 'C19_sign', 'C19_validation']
 STATEMENTS = {
+    'C19_clicks_rounded': 'ROUNDED ARITHMETIC (interpretation E): for ANY rounding of relative error u with (1+u)^3 < 2 applied after every operation, the SFP click count computed by Sight.adjustment is within (1+u)/(2-(1+u)^3) - 1 (about 4u: a few ulps) of correction / (click * calibration / target * magnification), for every sight and correction',
     'C19_src_adjustment_SFP': 'SOURCE TIE (all C19_src_*): Sight.get_adjustment with _adjust_sfp_reticle_steps/get_sfp_step inlined, executed symbolically per focal plane from the Python source on every run, equals the model click law',
     'C19_clicks': 'adjustment = (drop / effClick(fp, vClick), wind / effClick(fp, hClick)); effClick: FFP nominal, '
                   'SFP nominal*(calibration/target)*mag, LWIR nominal/mag',
